@@ -1,30 +1,37 @@
 PROP = dict(
     level="exploration",
     design_ref="DESIGN.md §3 C15",
-    technique="rapid-generated hold/proceed/refresh/clock histories run on the real gating state under a mocked clock, judged against a reference model of hold episodes and last-refresh times",
-    level_text="Generated histories (<= 40 operations over 2-4 snaps with generated last-refresh ages from an hour to 200 days) of: snaps holding themselves and "
-               "other snaps with the default (maximum) duration exactly as the gate-auto-refresh hook and snapctl refresh --hold issue it, proceed, administrator "
-               "holds (forever / until a time, both levels) and unholds, refreshes, candidate pruning, snap removal and re-installation, and clock advances from "
-               "minutes to 100 days including jumps to one second before / exactly at / one second after every pending bound. After every operation HeldSnaps is "
-               "queried at both levels and compared with a model that knows, per (held snap, holding snap), the start of the current hold episode and, per snap, "
-               "its last refresh: no snap is reported held by another snap more than 48 h after the episode start, nor by any snap more than 90 days after its "
-               "last refresh; holds that were proceeded, refreshed away, pruned or refused are not reported; granted holds are reported while their allowance "
-               "lasts; administrator holds are reported until their time (forever: always), at their level and below, across refreshes and prunes. Every "
-               "HoldRefresh result is checked: HoldError exactly for the snaps whose allowance is exhausted, all requested snaps dropped on refusal, and the "
-               "returned remaining time equal to the minimum allowance left.",
-    level_note="Sampled, not exhaustive. State-level: operations call the gating API directly (no tasks run); the ordering 'gating reset, then last-refresh "
-               "time set' of a refresh is performed back to back. Trusts snapstate.MockTimeNow as the only clock of the gating code. The snapctl/hook call "
-               "sites are bound by reading only (they pass a zero duration and level auto-refresh); no second harness drives ctlcmd.",
-    rule="rapid generates (last-refresh ages, operation list of hold/proceed/syshold/sysunhold/refresh/prune/remove/install/advance/tobound); "
+    technique="rapid-generated hold/proceed/refresh/clock histories run on the real gating state under a mocked clock (directly through the gating API, and through "
+              "snapctl refresh --hold/--proceed + the gate-auto-refresh hook handler), judged against a reference model of hold episodes and last-refresh times",
+    level_text="Engine 'holds': generated histories (<= 40 operations over 2-4 snaps with generated last-refresh ages from seconds to 200 days) of: snaps holding "
+               "themselves and other snaps with the default (maximum) duration exactly as the gate-auto-refresh hook and snapctl refresh --hold issue it, proceed, "
+               "administrator holds (forever / until a time, both levels) and unholds, refreshes, candidate pruning, snap removal and re-installation, and clock "
+               "advances from minutes to 100 days including jumps to one second before / exactly at / one second after every pending bound. After every operation "
+               "HeldSnaps is queried at both levels and compared with a model that knows, per (held snap, holding snap), the start of the current hold episode and, "
+               "per snap, its last refresh: no snap is reported held by another snap more than 48 h after the episode start, nor by any snap more than 90 days after "
+               "its last refresh; holds that were proceeded, refreshed away, pruned or refused are not reported; granted holds are reported while their allowance "
+               "lasts; administrator holds are reported until their time (forever: always), at their level and below, across refreshes and prunes. Every HoldRefresh "
+               "result is checked: HoldError exactly for the snaps whose allowance is exhausted, all requested snaps dropped on refusal, returned remaining time equal "
+               "to the minimum allowance left. Engine 'snapctl': the same model and checks, but holds and proceeds are issued by running "
+               "`snapctl refresh --hold` / `--proceed` (ctlcmd.Run) inside a gate-auto-refresh hook context followed by the hook handler's Done, by the handler's "
+               "Error path (failing hook = hold), and by a hook that does nothing, in a world of two gating apps, their base and the kernel with generated "
+               "refresh-candidate sets; this binds the call sites (zero duration, level auto-refresh, proceed deferred to the end of the hook) to the bounds.",
+    level_note="Sampled, not exhaustive. State-level: operations call the gating API / ctlcmd / hook handler directly (no task runner, no real hook process); a "
+               "refresh is 'gating reset, then last-refresh time set' performed back to back. Trusts snapstate.MockTimeNow as the only clock of the gating code. "
+               "In the snapctl engine the set of affecting snaps is taken from snapstate.AffectingSnapsForAffectedByRefreshCandidates (an input, not judged).",
+    rule="holds: rapid generates (last-refresh ages, operation list of hold/proceed/syshold/sysunhold/refresh/prune/remove/install/advance/tobound); "
+         "snapctl: (ages, list of candidates/snapctl-hold/hook-error/snapctl-proceed/hook-noaction/hold-then-proceed/proceed-then-hold/refresh/advance/tobound); "
          "non-trivial = the history has >= 2 successful holds of one (held, holder) pair separated by a clock advance, or a hold attempted past a bound "
          "(refused), or a refresh of the held snap between two holds of one pair; distinct by hash of the case",
-    assumptions=["gating snaps only issue duration 0 and level auto-refresh (hookstate/ctlcmd/refresh.go:hold, hookstate/hooks.go:gateAutoRefreshHookHandler.Error); explicit durations are outside the quantifier",
+    assumptions=["gating snaps only issue duration 0 and level auto-refresh (hookstate/ctlcmd/refresh.go:hold, hookstate/hooks.go:gateAutoRefreshHookHandler.Error; exercised by the snapctl engine); explicit durations are outside the quantifier",
                  "an administrator hold is never requested for exactly the current clock reading (HoldRefreshesBySystem reads a zero distance as 'forever'; impossible with a running clock)",
                  "the instant now == bound may be reported either way; a hold request at now == bound counts as exhausted (statement: 'once a bound is reached')",
-                 "every snap has a last-refresh-time in its state (the mtime fallback for snaps installed by very old snapd versions is not modelled)",
+                 "every snap has a last-refresh-time in its state (the blob-mtime fallback for snaps installed by very old snapd versions is not modelled)",
                  "refreshes reset gating one snap at a time (the only form snapstate.doInstall uses); pruneGating candidate sets that would hit the order-dependent 'changed' overwrite (DESIGN.md §4 obs) are completed with the administrator-only held snaps",
-                 "the clock never goes backwards and a refresh is never undone (undo restores the older last-refresh time)"],
+                 "the clock never goes backwards and a refresh is never undone (undo restores the older last-refresh time)",
+                 "a refused hold ends the episode (documented all-or-nothing rule drops the requester's holds), so the next request of that pair starts a new one"],
     engines=[
-        gt("holds", "overlord/snapstate", "TestVerifC15Holds", dict(checks=2500, shards=2), dict(checks=20000, shards=16)),
+        gt("holds", "overlord/snapstate", "TestVerifC15Holds", dict(checks=2500, shards=2), dict(checks=15000, shards=16)),
+        gt("snapctl", "overlord/snapstate", "TestVerifC15Snapctl", dict(checks=200, shards=2), dict(checks=2000, shards=8)),
     ],
 )
